@@ -119,8 +119,9 @@ func c04Oracle(sc *Scenario, rec *Rec, s *mc.Sched) []mc.Violation {
 				if !isPrefix(rr.CliRecv, ref.Msgs) {
 					add("not-a-prefix", fmt.Sprintf("%v vs %v", rr.CliRecv, ref.Msgs))
 				}
-			case ref.Status != "nil" && ref.Status != "ctx" && statusCodeOf(f) == ref.Code && k == 0:
-				// the handler's own failure: must be the complete real result
+			case ref.Status != "nil" && ref.Status != "ctx" && statusCodeOf(f) == ref.Code && (k == 0 || statusCodeOf(rr.Finals[0]) == ref.Code):
+				// the handler's own failure (repeated by later receives once the call
+				// has completed with it): must be the complete real result
 				if rpc.serverStreams() && !complete {
 					add("mixture", fmt.Sprintf("handler status after %d/%d msgs", len(rr.CliRecv), len(ref.Msgs)))
 				}
